@@ -49,8 +49,15 @@ def correspond(model_ok, res):
               T.AndOperation(*[T.Word("w") for _ in range(53)]),
               T.OrOperation(*[T.UnknownOperation(*[T.Word("w") for _ in range(30)]) for _ in range(3)]),
               T.Range(T.AndOperation(T.Word("a"), T.Word("b")), T.Word("c"))]
+    # more than a thousand names given, THEN another operation (a table of precomputed names must resume rightly)
+    corpus.append(T.OrOperation(*([T.Word("w") for _ in range(1001)] + [T.AndOperation(T.Word("x"), T.Word("y"))])))
+    corpus.append(T.AndOperation(T.SearchField("f", T.FieldGroup(T.OrOperation(*[T.Word("v") for _ in range(1100)]))),
+                                 T.OrOperation(T.Word("a"), T.Group(T.UnknownOperation(T.Word("b"), T.Word("c"))))))
     if lib.tier() != "quick":
         corpus.append(T.AndOperation(*[T.Word("w") for _ in range(52 * 51 + 60)]))
+        corpus.append(T.OrOperation(T.AndOperation(T.Word("x"), T.Word("y")),
+                                    *([T.Word("w") for _ in range(2100)] +
+                                      [T.Group(T.AndOperation(T.Word("p"), T.Not(T.OrOperation(T.Word("q"), T.Word("r")))))])))
     trees = corpus + [g.tree(r.randrange(0, 5)) for _ in range(n)]
     # regression corpus for the repaired defect (auto_name kept the names of a previous naming on elements that
     # are not operands any more).  Histories: a tree that was named before, then edited (an operand inserted
